@@ -363,7 +363,8 @@ func TestRoundTrip(t *testing.T) {
 		origin := rapid.SampledFrom([]interface{}{nil, "origin.example", map[string]interface{}{"o": []interface{}{"a"}}, float64(5)}).Draw(t, "anchorOrigin")
 		// create
 		st := Step{Type: "create", NextUpdate: commit(t, updJ, code), NextRecovery: commit(t, recJ, code), AnchorOrigin: origin, Time: 100}
-		info := &client.CreateRequestInfo{RecoveryCommitment: st.NextRecovery, UpdateCommitment: st.NextUpdate, AnchorOrigin: origin, MultihashCode: uint(code)}
+		info := &client.CreateRequestInfo{RecoveryCommitment: st.NextRecovery, UpdateCommitment: st.NextUpdate, AnchorOrigin: origin, MultihashCode: uint(code),
+			Type: rapid.SampledFrom([]string{"", "", "0001", "z"}).Draw(t, "didType")} // the optional suffix-data type
 		if rapid.IntRange(0, 2).Draw(t, "opaqueCreate") == 0 {
 			st.Opaque = opaqueDoc(t)
 			info.OpaqueDocument = js(st.Opaque)
